@@ -31,7 +31,8 @@ def report(pid, name, res, script):
     os.makedirs(rdir, exist_ok=True)
     lines = []
     for i, bc in enumerate(res.get("bad_cases", [])[:3]):
-        path = os.path.join(rdir, f"{pid}_bounded_{name.replace(' ', '_')}_{i}.json")
+        import re
+        path = os.path.join(rdir, f"{pid}_bounded_{re.sub('[^A-Za-z0-9_.-]+', '_', name)}_{i}.json")
         json.dump(dict(property=pid, obligation=f"bounded:{name}", replay_cmd=f"/venv/bin/python bounded/{script} --replay {path}", **bc), open(path, "w"), indent=1)
         lines.append(f"VIOLATION property={pid} replay={os.path.relpath(path, VERIF)} obligation=bounded:{name}")
     ev = {"what": name, "status": "bounded (NOT a proof)", "cases": res.get("cases"), "distinct_cases": res.get("distinct"), "checks": res.get("reads") or res.get("checks"),
